@@ -36,8 +36,12 @@ Perms(X) == IF X = {} THEN {<<>>} ELSE UNION {{<<x>> \o p : p \in Perms(X \ {x})
 \* outcomes of an INI read over every order in which the sections may be applied
 IniOutcomes(s, c, text) ==
   LET ini == ReadIni(text) IN
-  IF ini.unspec \/ ini.err # 0 \/ Len(ini.secs) > 4 THEN {IniParse(s, text, c.asDefaults, IdentityOrder(ini))}
-  ELSE {ApplyIni(s, ini, c.asDefaults, p) : p \in Perms(1..Len(ini.secs))}
+  IF ini.unspec \/ ini.err # 0 THEN {IniParse(s, text, c.asDefaults, IdentityOrder(ini))}
+  ELSE IF Len(ini.secs) <= 4 THEN {ApplyIni(s, ini, c.asDefaults, p) : p \in Perms(1..Len(ini.secs))}
+  ELSE \* many sections: file order, every rotation of it, and every section on its own first (whichever section the map yields
+       \* first decides which error is met first); enough to explain any first error, values are compared for the file order
+       {ApplyIni(s, ini, c.asDefaults, p) : p \in {[k \in 1..Len(ini.secs) |-> ((k + r - 1) % Len(ini.secs)) + 1] : r \in 0..(Len(ini.secs) - 1)}}
+       \cup {ApplyIni(s, ini, c.asDefaults, <<f>> \o SelectSeq(IdentityOrder(ini), LAMBDA k : k # f)) : f \in 1..Len(ini.secs)}
 
 \* does the real observation of an ini call match this specification outcome
 IniMatch(s2, co) == /\ co.errKind = s2.ierr.t
@@ -96,6 +100,9 @@ InDom12(rec, d) ==
   LET w == WriteIdx(rec) IN
   /\ w > 0 /\ InSeq(rec.tags, "roundtrip") /\ ~rec.obs[w].panic /\ rec.obs[w].errKind # "setup"
   /\ \A o \in RoundTripOpts(d) : d.opts[o].kind = "map" => \A p \in 1..Len(rec.obs[w].values[o]) : KeyOK(rec.obs[w].values[o][p][1])
+  \* no written option holds a value that its own choice list rejects (not reachable by parsing)
+  /\ \A o \in RoundTripOpts(d) : (d.opts[o].choices # <<>> /\ d.opts[o].kind # "map") =>
+         \A p \in 1..Len(rec.obs[w].values[o]) : InSeq(d.opts[o].choices, rec.obs[w].values[o][p])
 J12(rec, d) ==
   LET w == WriteIdx(rec)
       last == rec.obs[Len(rec.obs)] IN
